@@ -667,3 +667,261 @@ pub(crate) fn k_encoder_new_validation() {
         Err(_) => vk_assert!(!want_ok, "Encoder::new rejected documented parameters"),
     }
 }
+
+// ------------------------------------------------------------------ FlacSampleWriter: carry-over buffer and whole-block draining (C08)
+//
+// The collaborators are replaced by recorders (their own contracts: Frame::fill_from_samples de-interleaves the
+// slice it is given — out of CBMC's reach through MultiZip; update_md5 hashes the samples it is given;
+// Encoder::encode is K-encoder_encode_*).  What is proved is the buffering itself:
+// contract write(samples), with k samples carried over from earlier calls (k < F = channels x block size):
+//   the blocks handed to the frame builder and to the MD5 are exactly the first floor((k+m)/F) x F samples of
+//   (carry ++ samples), in order, F at a time; the rest stays buffered in order.
+// By induction over calls (lemma L-CHUNK) the block sequence is a function of the concatenation only.
+// contract finalize_inner(): the trailing partial PCM frame is dropped, the rest is encoded as one last block,
+//   and an empty block is never handed on (fewer than one whole PCM frame buffered => nothing is encoded).
+static G_W_LOG: [AtomicI64; 12] = [const { AtomicI64::new(0) }; 12];
+static G_W_LOG_N: AtomicUsize = AtomicUsize::new(0);
+static G_W_BLOCKS: AtomicUsize = AtomicUsize::new(0);
+static G_W_EMPTY: AtomicUsize = AtomicUsize::new(0);
+static G_W_MD5_N: AtomicUsize = AtomicUsize::new(0);
+static G_W_MD5_SUM: AtomicI64 = AtomicI64::new(0);
+static G_W_ENCODES: AtomicUsize = AtomicUsize::new(0);
+static G_W_FINALIZED: AtomicUsize = AtomicUsize::new(0);
+
+fn stub_fill_from_samples<'f>(f: &'f mut Frame, samples: &[i32]) -> &'f Frame {
+    if samples.is_empty() { G_W_EMPTY.fetch_add(1, Relaxed); }
+    let mut n = G_W_LOG_N.load(Relaxed);
+    let mut i = 0;
+    while i < samples.len() {
+        if n < 12 { G_W_LOG[n].store(samples[i] as i64, Relaxed); }
+        n += 1;
+        i += 1;
+    }
+    G_W_LOG_N.store(n, Relaxed);
+    G_W_BLOCKS.fetch_add(1, Relaxed);
+    f
+}
+fn stub_update_md5(_md5: &mut md5::Context, samples: impl Iterator<Item = i32>, _bytes_per_sample: usize) {
+    for s in samples {
+        G_W_MD5_N.fetch_add(1, Relaxed);
+        // order-sensitive running digest of what was hashed
+        let prev = G_W_MD5_SUM.load(Relaxed);
+        G_W_MD5_SUM.store(prev.wrapping_mul(31).wrapping_add(s as i64), Relaxed);
+    }
+}
+fn stub_encoder_encode<W: std::io::Write + std::io::Seek>(_e: &mut Encoder<W>, _frame: &Frame) -> Result<(), Error> {
+    G_W_ENCODES.fetch_add(1, Relaxed);
+    Ok(())
+}
+fn stub_encoder_finalize<W: std::io::Write + std::io::Seek>(_e: &mut Encoder<W>) -> Result<(), Error> {
+    G_W_FINALIZED.fetch_add(1, Relaxed);
+    Ok(())
+}
+
+fn mk_sample_writer(channels: usize, block: usize, carry: &[i32]) -> FlacSampleWriter<LogSink> {
+    let mut sample_buf: VecDeque<i32> = VecDeque::new();
+    let mut i = 0;
+    while i < carry.len() { sample_buf.push_back(carry[i]); i += 1; }
+    FlacSampleWriter {
+        encoder: mk_encoder(None, 0, 0),
+        sample_buf,
+        frame: Frame::empty(channels, 16),
+        frame_sample_size: channels * block,
+        pcm_frame_size: channels,
+        bytes_per_sample: 2,
+        finalized: false,
+    }
+}
+
+macro_rules! k_sample_writer_write {
+    ($name:ident, $channels:expr, $block:expr, $k:expr, $m:expr, $unw:expr) => {
+        #[kani::proof]
+        #[kani::unwind($unw)]
+        #[kani::stub(crate::audio::Frame::fill_from_samples, stub_fill_from_samples)]
+        #[kani::stub(update_md5, stub_update_md5)]
+        #[kani::stub(Encoder::encode, stub_encoder_encode)]
+        pub(crate) fn $name() {
+            const F: usize = $channels * $block;
+            let carry: [i32; $k] = kani::any();
+            let input: [i32; $m] = kani::any();
+            let mut w = mk_sample_writer($channels, $block, &carry);
+            let res = w.write(&input);
+            vk_assert!(res.is_ok(), "write succeeds when the encoder does");
+            let all = |i: usize| -> i32 { if i < $k { carry[i] } else { input[i - $k] } };
+            let blocks = ($k + $m) / F;
+            vk_assert!(G_W_BLOCKS.load(Relaxed) == blocks && G_W_ENCODES.load(Relaxed) == blocks, "one frame per whole block of buffered samples");
+            vk_assert!(G_W_LOG_N.load(Relaxed) == blocks * F && G_W_MD5_N.load(Relaxed) == blocks * F, "frames and MD5 receive exactly the whole blocks");
+            let mut want_sum: i64 = 0;
+            let mut i = 0;
+            while i < blocks * F {
+                vk_assert!(G_W_LOG[i].load(Relaxed) == all(i) as i64, "blocks are consecutive slices of (carried-over ++ written) samples, in order");
+                want_sum = want_sum.wrapping_mul(31).wrapping_add(all(i) as i64);
+                i += 1;
+            }
+            vk_assert!(G_W_MD5_SUM.load(Relaxed) == want_sum, "the MD5 is fed the same samples in the same order");
+            vk_assert!(w.sample_buf.len() == ($k + $m) - blocks * F, "the remainder stays buffered");
+            let mut j = 0;
+            while j < w.sample_buf.len() {
+                vk_assert!(w.sample_buf[j] == all(blocks * F + j), "carried-over samples keep their order");
+                j += 1;
+            }
+            w.encoder.finalized = true;
+        }
+    };
+}
+k_sample_writer_write!(k_sample_writer_write_1ch_k0_m3, 1, 2, 0, 3, 8);
+k_sample_writer_write!(k_sample_writer_write_1ch_k1_m4, 1, 2, 1, 4, 8);
+k_sample_writer_write!(k_sample_writer_write_2ch_k3_m2, 2, 2, 3, 2, 8);
+k_sample_writer_write!(k_sample_writer_write_2ch_k1_m1, 2, 2, 1, 1, 8);
+
+macro_rules! k_sample_writer_finalize {
+    ($name:ident, $channels:expr, $block:expr, $k:expr, $unw:expr) => {
+        #[kani::proof]
+        #[kani::unwind($unw)]
+        #[kani::stub(crate::audio::Frame::fill_from_samples, stub_fill_from_samples)]
+        #[kani::stub(update_md5, stub_update_md5)]
+        #[kani::stub(Encoder::encode, stub_encoder_encode)]
+        #[kani::stub(Encoder::finalize_inner, stub_encoder_finalize)]
+        pub(crate) fn $name() {
+            let carry: [i32; $k] = kani::any();
+            let mut w = mk_sample_writer($channels, $block, &carry);
+            let res = w.finalize_inner();
+            vk_assert!(res.is_ok(), "finalize succeeds when the encoder does");
+            let whole = ($k / $channels) * $channels;
+            vk_assert!(G_W_EMPTY.load(Relaxed) == 0, "an empty block must never be handed to the frame builder (it cannot be encoded)");
+            vk_assert!(G_W_LOG_N.load(Relaxed) == whole && G_W_MD5_N.load(Relaxed) == whole, "the trailing partial PCM frame is dropped, everything before it is encoded and hashed");
+            vk_assert!(G_W_BLOCKS.load(Relaxed) == (whole > 0) as usize, "at most one final block");
+            let mut i = 0;
+            while i < whole { vk_assert!(G_W_LOG[i].load(Relaxed) == carry[i] as i64, "the final block is the buffered samples in order"); i += 1; }
+            vk_assert!(G_W_FINALIZED.load(Relaxed) == 1, "the stream is finalized exactly once");
+            let again = w.finalize_inner();
+            vk_assert!(again.is_ok() && G_W_FINALIZED.load(Relaxed) == 1, "finalizing twice is a no-op");
+            w.encoder.finalized = true;
+        }
+    };
+}
+k_sample_writer_finalize!(k_sample_writer_finalize_2ch_k3, 2, 4, 3, 8);
+k_sample_writer_finalize!(k_sample_writer_finalize_2ch_k1, 2, 4, 1, 8);
+k_sample_writer_finalize!(k_sample_writer_finalize_1ch_k0, 1, 4, 0, 8);
+
+// ------------------------------------------------------------------ FlacByteWriter: carry-over buffer, byte order, whole-block draining (C08)
+// contract write(bytes) with k bytes carried over (k < frame_byte_size): the blocks handed on are exactly the first
+// floor((k+m)/B) x B bytes of (carry ++ bytes), converted sample-wise to little-endian, in order; the MD5 sees the
+// same little-endian bytes; the remainder stays buffered unconverted (so a write that ends in the middle of a
+// sample is converted only once the sample is complete).
+static G_B_LOG: [AtomicUsize; 12] = [const { AtomicUsize::new(0) }; 12];
+static G_B_LOG_N: AtomicUsize = AtomicUsize::new(0);
+static G_B_BLOCKS: AtomicUsize = AtomicUsize::new(0);
+static G_B_EMPTY: AtomicUsize = AtomicUsize::new(0);
+fn stub_fill_from_buf<'f, E: crate::byteorder::Endianness>(f: &'f mut Frame, buf: &[u8]) -> &'f Frame {
+    if buf.is_empty() { G_B_EMPTY.fetch_add(1, Relaxed); }
+    let mut n = G_B_LOG_N.load(Relaxed);
+    let mut i = 0;
+    while i < buf.len() {
+        if n < 12 { G_B_LOG[n].store(buf[i] as usize, Relaxed); }
+        n += 1;
+        i += 1;
+    }
+    G_B_LOG_N.store(n, Relaxed);
+    G_B_BLOCKS.fetch_add(1, Relaxed);
+    f
+}
+
+fn mk_byte_writer<E: crate::byteorder::Endianness>(channels: usize, block: usize, carry: &[u8]) -> FlacByteWriter<LogSink, E> {
+    let mut buf: VecDeque<u8> = VecDeque::new();
+    let mut i = 0;
+    while i < carry.len() { buf.push_back(carry[i]); i += 1; }
+    FlacByteWriter {
+        encoder: mk_encoder(None, 0, 0),
+        buf,
+        frame: Frame::empty(channels, 16),
+        bytes_per_sample: 2,
+        pcm_frame_size: 2 * channels,
+        frame_byte_size: 2 * channels * block,
+        finalized: true, // keeps Drop from finalizing; write() does not look at it
+        endianness: std::marker::PhantomData,
+    }
+}
+
+macro_rules! k_byte_writer_write {
+    ($name:ident, $e:ty, $swap:expr, $k:expr, $m:expr, $unw:expr) => {
+        #[kani::proof]
+        #[kani::unwind($unw)]
+        #[kani::stub(crate::audio::Frame::fill_from_buf, stub_fill_from_buf)]
+        #[kani::stub(Encoder::encode, stub_encoder_encode)]
+        pub(crate) fn $name() {
+            use std::io::Write;
+            const B: usize = 4; // mono, 16-bit, block of 2 samples
+            let carry: [u8; $k] = kani::any();
+            let input: [u8; $m] = kani::any();
+            let mut w: FlacByteWriter<LogSink, $e> = mk_byte_writer::<$e>(1, 2, &carry);
+            let res = w.write(&input);
+            vk_assert!(matches!(res, Ok(n) if n == $m), "write consumes all the bytes it is given");
+            let all = |i: usize| -> u8 { if i < $k { carry[i] } else { input[i - $k] } };
+            let blocks = ($k + $m) / B;
+            vk_assert!(G_B_BLOCKS.load(Relaxed) == blocks && G_W_ENCODES.load(Relaxed) == blocks, "one frame per whole block of buffered bytes");
+            vk_assert!(G_B_LOG_N.load(Relaxed) == blocks * B, "frames receive exactly the whole blocks");
+            let mut i = 0;
+            while i < blocks * B {
+                // little-endian image of sample i/2: bytes swapped within each 2-byte sample for big-endian input
+                let src = if $swap { (i / 2) * 2 + (1 - i % 2) } else { i };
+                vk_assert!(G_B_LOG[i].load(Relaxed) == all(src) as usize, "blocks are consecutive samples of (carried-over ++ written) bytes, each converted to little-endian exactly once");
+                i += 1;
+            }
+            vk_assert!(w.buf.len() == ($k + $m) - blocks * B, "the remainder stays buffered");
+            let mut j = 0;
+            while j < w.buf.len() {
+                vk_assert!(w.buf[j] == all(blocks * B + j), "carried-over bytes stay in input order and input byte order");
+                j += 1;
+            }
+            w.encoder.finalized = true;
+        }
+    };
+}
+k_byte_writer_write!(k_byte_writer_write_le_k1_m4, crate::byteorder::LittleEndian, false, 1, 4, 8);
+k_byte_writer_write!(k_byte_writer_write_be_k1_m4, crate::byteorder::BigEndian, true, 1, 4, 8);
+k_byte_writer_write!(k_byte_writer_write_be_k3_m6, crate::byteorder::BigEndian, true, 3, 6, 12);
+k_byte_writer_write!(k_byte_writer_write_be_k0_m3, crate::byteorder::BigEndian, true, 0, 3, 8);
+
+// ------------------------------------------------------------------ update_md5: the hash input is the little-endian byte image of the samples (C08 / C09)
+// contract (md5::Context::consume replaced by a recorder): for each sample, in order, exactly `bytes_per_sample`
+// bytes are hashed and they are the low bytes of the sample's two's complement, least significant first
+static G_H_LOG: [AtomicUsize; 8] = [const { AtomicUsize::new(0) }; 8];
+static G_H_N: AtomicUsize = AtomicUsize::new(0);
+fn stub_md5_consume<T: AsRef<[u8]>>(_c: &mut md5::Context, data: T) {
+    let d = data.as_ref();
+    let mut n = G_H_N.load(Relaxed);
+    let mut i = 0;
+    while i < d.len() {
+        if n < 8 { G_H_LOG[n].store(d[i] as usize, Relaxed); }
+        n += 1;
+        i += 1;
+    }
+    G_H_N.store(n, Relaxed);
+}
+macro_rules! k_update_md5_bytes {
+    ($name:ident, $w:expr) => {
+        #[kani::proof]
+        #[kani::unwind(6)]
+        #[kani::stub(md5::Context::consume, stub_md5_consume)]
+        pub(crate) fn $name() {
+            let s: [i32; 2] = [any_i64_within(8 * $w) as i32, any_i64_within(8 * $w) as i32];
+            let mut c = md5::Context::new();
+            update_md5(&mut c, s.iter().copied(), $w);
+            vk_assert!(G_H_N.load(Relaxed) == 2 * $w, "exactly bytes_per_sample bytes are hashed per sample");
+            let mut k = 0;
+            while k < 2 {
+                let mut b = 0;
+                while b < $w {
+                    vk_assert!(G_H_LOG[k * $w + b].load(Relaxed) == ((s[k] >> (8 * b)) & 0xFF) as usize, "hash input is the little-endian two's-complement image of each sample, in order");
+                    b += 1;
+                }
+                k += 1;
+            }
+        }
+    };
+}
+k_update_md5_bytes!(k_update_md5_bytes_w1, 1);
+k_update_md5_bytes!(k_update_md5_bytes_w2, 2);
+k_update_md5_bytes!(k_update_md5_bytes_w3, 3);
+k_update_md5_bytes!(k_update_md5_bytes_w4, 4);
